@@ -436,7 +436,7 @@ def run(chk):
     chk.guard('C15.M', check_validate_before_mutate, chk)
     chk.guard('C15.B', check_bounds, chk)
     # shape read-backs of the same contracts: advisory once the evaluation C15.R decided positively
-    run_rule = chk.advisory if ref_ok else chk.guard
+    run_rule = chk.readback(ref_ok)
     run_rule('C15.A', check_aliasing, chk)
     chk.guard('C15.T', check_type_strictness, chk)
     run_rule('C15.H', check_wrappers, chk)
